@@ -6,6 +6,7 @@ import Bita.Model.Readers
 import Bita.Spec.Resume
 import Bita.Proofs.Http
 import Bita.Proofs.IoReader
+import Bita.Proofs.ReaderEnv
 
 namespace Bita.Props.C08
 open Bita Bita.Spec
@@ -68,6 +69,13 @@ theorem io_reader_complete (file : Bytes) (chunks : List ChunkOffset) (buf0 : By
     (hlen : (chunks.map (·.size)).sum ≤ (script.filter (· ≠ ReadEv.pending)).length) :
     ioReadChunks file chunks buf0 script = chunks.map (exactItem file) :=
   Proofs.io_reader_complete file chunks buf0 script hsize hin hok hlen
+
+/-- **`read_at`** (header reads) of both readers: exactly `size` bytes or an error, for *any*
+server / transport / short-read behaviour - never a short or over-long answer. -/
+theorem read_at_exact (eh : HttpEnv) (ei : IoEnv) :
+    (∀ off size b, eh.readAt off size = some b → b.length = size) ∧
+    (∀ off size b, ei.readAt off size = some b → b.length = size) :=
+  ⟨Proofs.http_env_exact eh, Proofs.io_env_exact ei⟩
 
 /-! Non-vacuity: a run of two chunks failing three times (budget 3), resumed at +3 and +5. -/
 example :
